@@ -2,6 +2,7 @@ import O4.Model.Obfs3
 import O4.Lemmas.Obfs3
 import O4.Lemmas.UdhAgree
 import O4.Lemmas.CtrLaw
+import O4.Generated.Facts.Obfs3
 /-!
 # C13 — obfs3 and UniformDH: agreement, stream integrity, rejection of over-padding
 
@@ -22,6 +23,8 @@ coalesced with the magic or with the handshake padding, and reads that block in 
 * `handshake_never_overreads`, `no_stall_first_read`, `coalesced_with_handshake`
                         a flight key ‖ pad ‖ magic ‖ data in one segment: the key read takes 192 bytes,
                         the rest stays on the socket and is delivered without further traffic
+* `tail_with_error_delivered`, `tail_with_error_lost_in_scan`  bytes the conn returns together with an
+                        error: delivered after the magic, discarded inside the scan (finding)
 * `read_progress`       once everything arrived every further `Read` delivers at least one byte until all is delivered
 * `too_much_padding_rejected`  no magic at an offset ≤ maxPadding and ≥ maxPadding+32 bytes arrived ⇒ the
                         next `Read` fails and the conn is closed, nothing is ever delivered
@@ -46,6 +49,33 @@ theorem spec_constants :
     O4.Consts.Uniformdh.modpStr =
       "FFFFFFFFFFFFFFFFC90FDAA22168C234C4C6628B80DC1CD129024E088A67CC74020BBEA63B139B22514A08798E3404DDEF9519B3CD3A431B302B0A6DF25F14374FE1356D6D51C245E485B576625E7EC6F44C42E9A637ED6B0BFF5CB6F406B7EDEE386BFB5A899FA5AE9F24117C4B1FE649286651ECE45B3DC2007CB8A163BF0598DA48361C55D39A69163FA8FD24CF5F83655D23DCA3AD961C62F356208552BB9ED529077096966D670C354E4ABC9804F1746C08CA237327FFFFFFFFFFFFFFFF" :=
   ⟨rfl, rfl, rfl, rfl, rfl, rfl, rfl, rfl, rfl, rfl, rfl⟩
+
+/-! ### structural facts of the Go source the model rests on (go/ast, regenerated per run) -/
+
+/-- The model treats HMAC / AES-CTR as pure functions with per-connection state, the key read as
+`io.ReadFull` (never over-reading: `handshake_never_overreads`), `Read` as scan + `rx.Read`
+(`cipher.StreamReader`), and `Read` / `Write` as working on disjoint state (so they may run in
+different goroutines). In the source: `kdf` makes fresh `hmac.New`, `aes.NewCipher`,
+`cipher.NewCTR`; `handshake` reads with `io.ReadFull` only; `findPeerMagic` is the only caller of
+`Conn.Read` besides the stream reader; the fields `Read` touches and the fields `Write` touches
+meet only in the embedded `Conn` (and `Close`). -/
+theorem structure_facts :
+    "hmac.New" ∈ O4.Facts.Obfs3.obfs3Conn_kdf_calls ∧
+    "aes.NewCipher" ∈ O4.Facts.Obfs3.obfs3Conn_kdf_calls ∧
+    "cipher.NewCTR" ∈ O4.Facts.Obfs3.obfs3Conn_kdf_calls ∧
+    "io.ReadFull" ∈ O4.Facts.Obfs3.obfs3Conn_handshake_calls ∧
+    "io.ReadAtLeast" ∉ O4.Facts.Obfs3.obfs3Conn_handshake_calls ∧
+    "Conn.Read" ∉ O4.Facts.Obfs3.obfs3Conn_handshake_calls ∧
+    "rxBuf.Write" ∉ O4.Facts.Obfs3.obfs3Conn_handshake_calls ∧
+    "uniformdh.GenerateKey" ∈ O4.Facts.Obfs3.obfs3Conn_handshake_calls ∧
+    "uniformdh.Handshake" ∈ O4.Facts.Obfs3.obfs3Conn_handshake_calls ∧
+    "conn.findPeerMagic" ∈ O4.Facts.Obfs3.obfs3Conn_Read_calls ∧
+    "rx.Read" ∈ O4.Facts.Obfs3.obfs3Conn_Read_calls ∧
+    "Conn.Read" ∉ O4.Facts.Obfs3.obfs3Conn_Read_calls ∧
+    "tx.Write" ∈ O4.Facts.Obfs3.obfs3Conn_Write_calls ∧
+    (∀ f ∈ O4.Facts.Obfs3.obfs3Conn_Read_fields, f ∈ O4.Facts.Obfs3.obfs3Conn_Write_fields →
+      f = "Conn" ∨ f = "Close") := by
+  decide
 
 /-! ### UniformDH -/
 
@@ -320,6 +350,38 @@ theorem coalesced_with_handshake (P : Prims) (ks) (hL : P.sxor.Law ks) (c : Conn
   rcases f3 with ⟨a1, _⟩ | ⟨_, b2⟩
   · rw [hm] at a1; cases a1
   · simpa using b2
+
+/-! ### end of stream: bytes returned together with an error -/
+
+/-- **After the magic, bytes returned together with an error are delivered.** When the handshake
+buffer is drained and the underlying conn hands out a final chunk in the same call as an error
+(`n > 0, err ≠ nil`), the `Read` returns the decryption of the chunk along with the error. -/
+theorem tail_with_error_delivered (P : Prims) (ks) (hL : P.sxor.Law ks) (c : Conn) (hm : c.rxMagic = none)
+    (hcl : c.closed = false) (hb : c.rxBuf.getD [] = []) (max : Nat) (chunk : Bytes) :
+    readLast P c max chunk =
+      .dataErr { c with rxBuf := none, rx := { c.rx with off := c.rx.off + chunk.length } }
+        (xorAt (ks c.rx.key c.rx.iv) c.rx.off chunk) := by
+  unfold readLast
+  simp only [hcl, Bool.false_eq_true, ↓reduceIte, hm, Stream.xor]
+  rw [hL]
+  cases hb' : c.rxBuf with
+  | none => rfl
+  | some buf =>
+    cases buf with
+    | nil => rfl
+    | cons x xs => simp [hb'] at hb
+
+/-- **Finding (unchanged code), stated on the model:** while the scan for the magic is still running,
+bytes that the conn returns *together with an error* are discarded — `findPeerMagic` returns the
+error before looking at them ("continuing past that is nonsensical") — even when they contain the
+magic and data: nothing is delivered and the connection is closed. A kernel TCP socket never
+returns data and an error from one call, in-memory wires may. Harness signature
+`tail-lost-data-with-error-in-magic-scan` (KNOWN-FINDING). -/
+theorem tail_with_error_lost_in_scan (P : Prims) (c : Conn) (m : Bytes) (hm : c.rxMagic = some m)
+    (hcl : c.closed = false) (max : Nat) (chunk : Bytes) :
+    readLast P c max chunk = .fail { c with closed := true } .eof := by
+  unfold readLast
+  simp [hcl, hm]
 
 /-! ### over-padding and missing magic -/
 
